@@ -155,7 +155,7 @@ def simulate(
         for name in ("order1", "order2"):
             if hasattr(init, name):
                 partials = getattr(init, name)
-                setattr(sm, name, {key: partials[key].copy() for key in partials})
+                setattr(sm, name, {key: partials[key].copy(**options) for key in partials})
 
     # run simulation
     values, times = simulate_simple(
